@@ -19,7 +19,9 @@ def build(run, scr):
     F = c.dump.find_impl_method
     c.f_try_add = F("try_add", r"\(_1: &quantity::Value, _2: &quantity::Value\) -> Result<quantity::Value, TextValueError>")
     c.f_gv_add = F("add", r"\(_1: &mut GroupedValue, _2: &quantity::Value\)")
+    c.f_gv_merge = F("merge", r"\(_1: &mut GroupedValue, _2: &GroupedValue\)")
     c.it.inline.append((r"^<quantity::Value as TryAdd>::try_add$", c.f_try_add))
+    c.it.inline.append((r"^GroupedValue::add$", c.f_gv_add))
     c.it.models.update(models.VEC_MODELS)
     run.functions += ["<quantity::Value as TryAdd>::try_add (MIR)", "quantity::GroupedValue::add (MIR)", "quantity::Number::value (MIR)"]
     return c
@@ -35,17 +37,41 @@ def number_values(c, i):
     return i.vals
 
 
+def number_exact(c, n):
+    """(exact real value, magnitude bound) of a Number value produced by the code (Regular or Fraction, concrete variant)"""
+    if "Regular" in n.variants and len(n.variants) == 1:
+        e = n.variants["Regular"].fields["0"].expr
+        return e, c08.absx(e)
+    if "Fraction" in n.variants and len(n.variants) == 1:
+        ff = dict(c.decls.enums["Number"])["Fraction"]
+        f = n.variants["Fraction"].fields
+        w, nu, de, er = (f[str(ff.index(k))].expr for k in ("whole", "num", "den", "err"))
+        ex = "(+ (+ (to_real %s) %s) (/ (to_real %s) (to_real %s)))" % (w, er, nu, de)
+        mg = "(+ (+ (to_real %s) %s) (/ (to_real %s) (to_real %s)))" % (w, c08.absx(er), nu, de)
+        return ex, mg
+    return None, None
+
+
 def sum_spec(c, x, y, out):
-    """out (a Number) is Regular(fl(value(x) + value(y)))"""
+    """out (a Number) denotes value(x) + value(y): either literally Regular(fl(value(x)+value(y))) (a term identity,
+    decided without arithmetic) or any Number whose exact value is within 8u of the exact sum"""
     nn = [v for v, _ in c.decls.enums["Number"]]
-    if not isinstance(out, Enum) or "Regular" not in out.variants:
+    if not isinstance(out, Enum):
         return "false"
-    o = out.variants["Regular"].fields["0"].expr
-    parts = ["(= %s %d)" % (out.discr.expr, nn.index("Regular"))]
-    for pcx, vx in number_values(c, x):
-        for pcy, vy in number_values(c, y):
-            parts.append("(=> %s (= %s %s))" % (c08.conj(pcx + pcy), o, c.sem.float_arith("Add", vx, vy, "f64")))
-    return c08.conj(parts)
+    alts = []
+    if "Regular" in out.variants:
+        o = out.variants["Regular"].fields["0"].expr
+        parts = ["(= %s %d)" % (out.discr.expr, nn.index("Regular"))]
+        for pcx, vx in number_values(c, x):
+            for pcy, vy in number_values(c, y):
+                parts.append("(=> %s (= %s %s))" % (c08.conj(pcx + pcy), o, c.sem.float_arith("Add", vx, vy, "f64")))
+        alts.append(c08.conj(parts))
+    ex, mg = number_exact(c, out)
+    if ex is not None:
+        alts.append("(<= %s (* %s (+ %s %s %s)))" % (c08.absx("(- %s (+ %s %s))" % (ex, x.exact, y.exact)), smt.rat(8 * U), x.mag, y.mag, mg))
+    if not alts:
+        return "false"
+    return alts[0] if len(alts) == 1 else "(or %s)" % " ".join(alts)
 
 
 def add_spec(c, A, B, out):
@@ -117,6 +143,54 @@ def m_part(run, scr, nat):
     if PANIC_ONLY:
         items[:] = [i for i in items if "panic" in i[0]]
 
+    # ---- ScaledQuantity::try_add: the sum of the (possibly converted) right-hand value, in the left-hand unit
+    it.models.update(models.RESULT_MODELS)
+    qf = decls.structs.lookup("Quantity", "quantity")
+    CV = c08.sym_value(c, "cv")       # whatever Quantity::convert turns the right-hand value into (C09's claim)
+    for i in (CV.n, CV.s, CV.e):
+        number_values(c, i)
+    cv_text = "(= %s %d)" % (CV.discr.expr, CV.idx["Text"])
+    cu = sem.sym_int("compatible", "isize", 0, 2)
+    conv_ok = sem.sym_int("convert_ok", "isize", 0, 1)
+    unit_l, unit_r, unit_c = Opaque("left unit"), Opaque("right unit"), Opaque("common unit")
+
+    def m_compatible(it_, a, callee):
+        ok_none = it_._mk_enum("Result", "Ok", [it_._mk_enum("Option", "None", [])])
+        ok_some = it_._mk_enum("Result", "Ok", [it_._mk_enum("Option", "Some", [unit_c])])
+        err = it_._mk_enum("Result", "Err", [Opaque("IncompatibleUnits")])
+        return [(["(= compatible 0)"], ok_none, "return", None), (["(= compatible 1)"], ok_some, "return", None),
+                (["(= compatible 2)"], err, "return", None)]
+
+    def m_quantity_convert(it_, a, callee):
+        # rhs.convert(&unit, converter): on success rhs holds the converted value (symbolic CV) in the common unit
+        q = Agg("Quantity", {str(qf.index("value")): CV, str(qf.index("unit")): models.mk_option(it_, SV("isize", "1"), unit_c)})
+        env2_ok = [(["(= convert_ok 1)"], it_._mk_enum("Result", "Ok", [Opaque("unit")]), "return", None)]
+        it_.write_ref(a[0], q, it_.cur_env)      # harmless on the error path: the result is discarded there
+        return env2_ok + [(["(= convert_ok 0)"], it_._mk_enum("Result", "Err", [Opaque("ConvertError")]), "return", None)]
+    it.models[r"^quantity::Quantity::compatible_unit$"] = m_compatible
+    it.models[r"^convert::<impl quantity::Quantity>::convert::<"] = m_quantity_convert
+    f_q_try_add = c.dump.find_impl_method("try_add", r"\(_1: &quantity::Quantity, _2: &quantity::Quantity, _3: &Converter\)")
+    run.functions.append("quantity::ScaledQuantity::try_add (MIR)")
+    ql = Agg("Quantity", {str(qf.index("value")): A, str(qf.index("unit")): models.mk_option(it, SV("isize", sem.sym_int("lunit", "isize", 0, 1)), unit_l)})
+    qr = Agg("Quantity", {str(qf.index("value")): B, str(qf.index("unit")): models.mk_option(it, SV("isize", sem.sym_int("runit", "isize", 0, 1)), unit_r)})
+    n_q_ok = 0
+    for o in it.run(f_q_try_add, [ql, qr, Opaque("converter")]):
+        p = ">".join(o.trace[-3:])
+        if o.kind == "panic":
+            ob("ScaledQuantity::try_add never panics: %s" % str(o.msg)[:40], o.pc, "true")
+            continue
+        if o.kind != "return" or "Ok" not in o.value.variants:
+            continue
+        n_q_ok += 1
+        out = o.value.variants["Ok"].fields["0"]
+        val, un = out.fields[str(qf.index("value"))], out.fields[str(qf.index("unit"))]
+        direct = "(and (= compatible 0) (not %s) (not %s) %s)" % (a_text, b_text, add_spec(c, A, B, val))
+        converted = "(and (= compatible 1) (= convert_ok 1) (not %s) (not %s) %s)" % (a_text, cv_text, add_spec(c, A, CV, val))
+        ob("ScaledQuantity::try_add Ok path[%s]: the total is left + right (right converted to the common unit when one exists), kept in the left unit" % p,
+           o.pc, "(not (and %s (or %s %s)))" % (c08.same(un, ql.fields[str(qf.index("unit"))]), direct, converted))
+    if n_q_ok < 2:
+        run.inconclusive.append("ScaledQuantity::try_add: expected success paths with and without conversion, found %d" % n_q_ok)
+
     # ---- GroupedValue::add: one step from every valid shape (<= 1 non-text value, and only at index 0)
     def text(k):
         names = [v for v, _ in decls.enums["Value"]]
@@ -170,6 +244,55 @@ def m_part(run, scr, nat):
                 case_ins = c08.conj(["(not %s)" % b_text, c08.same(new[0], B)] + [c08.same(new[k + 1], pre_items[k]) for k in range(n0)])
             ob("GroupedValue::add %s + v path[%s]: text appended last | numeric summed into the head | numeric becomes the head; "
                "nothing else changes" % (sname, p), o.pc, "(not (or %s %s %s))" % (case_text, case_sum, case_ins))
+    # ---- GroupedValue::merge: the loop over the other group is unrolled by its (concrete) length
+    G2 = c08.sym_value(c, "g")        # numeric head of the other group, when present
+    g_text = "(= %s %d)" % (G2.discr.expr, G2.idx["Text"])
+    for i in (G2.n, G2.s, G2.e):
+        number_values(c, i)
+    mshapes = [("[]", []), ("[N]", ["N"]), ("[T]", ["T"]), ("[N,T]", ["N", "T"]), ("[T,T]", ["T", "T"])]
+    for sname, shape in mshapes[:4]:
+        for oname, oshape in mshapes:
+            mine = [H if k == "N" else text(10 + j) for j, k in enumerate(shape)]
+            theirs = [G2 if k == "N" else text(20 + j) for j, k in enumerate(oshape)]
+            pre = []
+            if "N" in shape:
+                pre.append("(not %s)" % h_text)
+            if "N" in oshape:
+                pre.append("(not %s)" % g_text)
+            me = Agg("GroupedValue", {"0": VecVal(mine)})
+            other = Agg("GroupedValue", {"0": VecVal(theirs)})
+            for o in it.run(c.f_gv_merge, [me, other], pc=pre):
+                p = ">".join(o.trace[-2:])
+                if o.kind == "panic":
+                    ob("GroupedValue::merge %s <- %s never panics (%s)" % (sname, oname, str(o.msg)[:40]), o.pc, "true")
+                    continue
+                if o.kind != "return":
+                    continue
+                after = o.env["_1"]
+                vec = after.fields["0"] if isinstance(after, Agg) else None
+                if not isinstance(vec, VecVal):
+                    run.inconclusive.append("GroupedValue::merge %s <- %s: final state not tracked" % (sname, oname))
+                    continue
+                new = vec.items
+                my_texts = [x for x, k in zip(mine, shape) if k == "T"]
+                their_texts = [x for x, k in zip(theirs, oshape) if k == "T"]
+                want_texts = my_texts + their_texts
+                heads = ("N" in shape) + ("N" in oshape)
+                if len(new) != (1 if heads else 0) + len(want_texts):
+                    post = "false"
+                else:
+                    parts = []
+                    if heads == 2:
+                        parts.append(add_spec(c, H, G2, new[0]))
+                    elif "N" in shape:
+                        parts.append(c08.same(new[0], H))
+                    elif "N" in oshape:
+                        parts.append(c08.same(new[0], G2))
+                    off = 1 if heads else 0
+                    parts += [c08.same(new[off + k], t) for k, t in enumerate(want_texts)]
+                    post = c08.conj(parts)
+                ob("GroupedValue::merge %s <- %s path[%s]: numeric heads summed, every text of both groups kept in order" % (sname, oname, p),
+                   o.pc, "(not %s)" % post)
     run.assumptions += [
         "group states are the shapes admitted by the representation invariant (at most one non-text value, at index 0) with up to two text entries; "
         "the invariant is re-established by every step, so histories of any length are covered up to the number of text entries",
@@ -179,7 +302,7 @@ def m_part(run, scr, nat):
     run.bounds.append("M: loop-free CFGs, all paths; 6 group shapes x 3 kinds of added value")
     D = list(sem.decls)
     batch = mcheck.Batch(c.ms, "c10", D, timeout_s=120 if run.tier == "quick" else 600, deltas=sem.deltas)
-    INPUTS = ["a_tag", "b_tag", "h_tag", "a_n_tag", "a_n_reg", "b_n_tag", "b_n_reg", "h_n_tag", "h_n_reg", "a_s_reg", "a_e_reg", "b_s_reg", "b_e_reg"]
+    INPUTS = ["a_tag", "b_tag", "h_tag", "g_tag", "cv_tag", "compatible", "convert_ok", "a_n_tag", "a_n_reg", "b_n_tag", "b_n_reg", "h_n_tag", "h_n_reg", "a_s_reg", "a_e_reg", "b_s_reg", "b_e_reg"]
 
     def on_sat(name):
         def cb(model, obl, item):
@@ -237,7 +360,9 @@ def check(run):
         r = nat.call("group_scenario", *args)
         run.traces_validated += 12
         if ("error" in r or r.get("problems")) and not run.violations:
-            run.inconclusive.append("the solver found no violation but concrete try_add / GroupedValue::add histories misbehave: %s" % str(r)[:300])
+            # a concrete history that misbehaves on the real code is a violation whatever the encoder thinks
+            run.violation("validation-vector group_scenario", "concrete try_add / GroupedValue::add histories misbehave: %s" % "; ".join(r.get("problems", [str(r)])[:3])[:600],
+                          dict(engine="validation-vector", replay="group_scenario", args=list(args)))
     run.not_covered += [
         "GroupedQuantity::add bucket selection (EnumMap + HashMap lookups + Converter), group_quantities, IngredientList, categorize by aisle: "
         "hash maps / BTreeMap of Strings, out of reach of both engines - the parts a shopping-list user sees are NOT decided here",
